@@ -7,5 +7,5 @@ Import ListNotations.
 Theorem C09_unpack_preserves :
   forall (K : Type) (o : ops K) (SRK : StarRing o) (e : env (K:=K)) (sp : list (comp (K:=K))) st,
     cadd_list o e (unpack_spec sp) st = cadd_list o e sp st.
-Proof. exact (fun K o SRK => @unpack_cadd_list K o SRK). Qed.
+Proof. exact (fun K o _ => @unpack_cadd_list K o). Qed.
 Print Assumptions C09_unpack_preserves.
